@@ -86,8 +86,9 @@ class Wavefront:
 
                 # Reference sphere center and radius
                 xc, yc, zc, R = self._get_reference_sphere(pupil_z)
-                opd_ref = self._get_path_length(xc, yc, zc, R)
-                opd_ref = self._correct_tilt(field, opd_ref, x=0, y=0)
+                opd_ref = self._get_path_length(xc, yc, zc, R, wavelength)
+                opd_ref = self._correct_tilt(field, opd_ref, x=0, y=0,
+                                             wavelength=wavelength)
 
                 field_data.append(self._generate_field_data(field, wavelength,
                                                             opd_ref,
@@ -116,8 +117,8 @@ class Wavefront:
         # trace distribution through pupil
         self.optic.trace(*field, wavelength, None, self.distribution)
         intensity = self.optic.surface_group.intensity[-1, :]
-        opd = self._get_path_length(xc, yc, zc, R)
-        opd = self._correct_tilt(field, opd)
+        opd = self._get_path_length(xc, yc, zc, R, wavelength)
+        opd = self._correct_tilt(field, opd, wavelength=wavelength)
         return (opd_ref - opd) / (wavelength * 1e-3), intensity
 
     def _trace_chief_ray(self, field, wavelength):
@@ -159,7 +160,7 @@ class Wavefront:
 
         return xc, yc, zc, R
 
-    def _get_path_length(self, xc, yc, zc, r):
+    def _get_path_length(self, xc, yc, zc, r, wavelength=None):
         """
         Calculates the optical path difference.
 
@@ -173,9 +174,14 @@ class Wavefront:
             float: The optical path difference.
         """
         opd = self.optic.surface_group.opd[-1, :]
-        return opd - self._opd_image_to_xp(xc, yc, zc, r)
+        # optical (not geometric) path from the image surface back to the
+        # reference sphere: index of the medium behind the image surface
+        n = 1.0
+        if wavelength is not None:
+            n = self.optic.image_surface.material_post.n(wavelength)
+        return opd - n * self._opd_image_to_xp(xc, yc, zc, r)
 
-    def _correct_tilt(self, field, opd, x=None, y=None):
+    def _correct_tilt(self, field, opd, x=None, y=None, wavelength=None):
         """
         Corrects for tilt in the optical path difference.
 
@@ -200,6 +206,10 @@ class Wavefront:
             EPD = self.optic.paraxial.EPD()
             tilt_correction = ((1 - x) * np.sin(np.radians(x_tilt)) * EPD / 2 +
                                (1 - y) * np.sin(np.radians(y_tilt)) * EPD / 2)
+            if wavelength is not None:
+                # optical path in the object-space medium
+                n0 = self.optic.object_surface.material_post.n(wavelength)
+                tilt_correction = n0 * tilt_correction
         return opd - tilt_correction
 
     def _opd_image_to_xp(self, xc, yc, zc, R):
